@@ -141,7 +141,7 @@ fn verif_known_c02_echo() -> bool {
 //# cover: dropped: destination not in self-IP list
 //# cover: dropped: source on deny list
 #[kani::proof]
-#[kani::unwind(26)]
+#[kani::unwind(44)]
 #[kani::stub(crate::layer_4::icmpv6::repl, crate::verif_util::l4_icmpv6_stub)]
 #[kani::stub(crate::layer_4::tcp::repl, crate::verif_util::l4_tcp_stub)]
 #[kani::stub(crate::layer_4::udp::repl, crate::verif_util::l4_udp_stub)]
@@ -161,7 +161,7 @@ fn c04_ipv6_tcp_20() {
 //# known: c04.udp6_zero_checksum
 //# cover: reply emitted
 #[kani::proof]
-#[kani::unwind(29)]
+#[kani::unwind(44)]
 #[kani::stub(crate::layer_4::icmpv6::repl, crate::verif_util::l4_icmpv6_stub)]
 #[kani::stub(crate::layer_4::tcp::repl, crate::verif_util::l4_tcp_stub)]
 #[kani::stub(crate::layer_4::udp::repl, crate::verif_util::l4_udp_stub)]
@@ -182,7 +182,7 @@ fn c04_ipv6_tcp_23() {
 //# cover: reply emitted
 //# cover: layer 4 silent
 #[kani::proof]
-#[kani::unwind(26)]
+#[kani::unwind(44)]
 #[kani::stub(crate::layer_4::icmpv6::repl, crate::verif_util::l4_icmpv6_stub)]
 #[kani::stub(crate::layer_4::tcp::repl, crate::verif_util::l4_tcp_stub)]
 #[kani::stub(crate::layer_4::udp::repl, crate::verif_util::l4_udp_stub)]
@@ -202,7 +202,7 @@ fn c04_ipv6_udp_9() {
 //# known: c04.udp6_zero_checksum
 //# cover: reply emitted
 #[kani::proof]
-#[kani::unwind(26)]
+#[kani::unwind(44)]
 #[kani::stub(crate::layer_4::icmpv6::repl, crate::verif_util::l4_icmpv6_stub)]
 #[kani::stub(crate::layer_4::tcp::repl, crate::verif_util::l4_tcp_stub)]
 #[kani::stub(crate::layer_4::udp::repl, crate::verif_util::l4_udp_stub)]
@@ -224,7 +224,7 @@ fn c04_ipv6_udp_12() {
 //# cover: layer 4 silent
 //# cover: neighbour advertisement emitted
 #[kani::proof]
-#[kani::unwind(26)]
+#[kani::unwind(44)]
 #[kani::stub(crate::layer_4::icmpv6::repl, crate::verif_util::l4_icmpv6_stub)]
 #[kani::stub(crate::layer_4::tcp::repl, crate::verif_util::l4_tcp_stub)]
 #[kani::stub(crate::layer_4::udp::repl, crate::verif_util::l4_udp_stub)]
@@ -245,7 +245,7 @@ fn c04_ipv6_icmp_8() {
 //# cover: reply emitted
 //# cover: neighbour advertisement emitted
 #[kani::proof]
-#[kani::unwind(39)]
+#[kani::unwind(44)]
 #[kani::stub(crate::layer_4::icmpv6::repl, crate::verif_util::l4_icmpv6_stub)]
 #[kani::stub(crate::layer_4::tcp::repl, crate::verif_util::l4_tcp_stub)]
 #[kani::stub(crate::layer_4::udp::repl, crate::verif_util::l4_udp_stub)]
@@ -265,7 +265,7 @@ fn c04_ipv6_icmp_33() {
 //# known: c04.udp6_zero_checksum
 
 #[kani::proof]
-#[kani::unwind(26)]
+#[kani::unwind(44)]
 #[kani::stub(crate::layer_4::icmpv6::repl, crate::verif_util::l4_icmpv6_stub)]
 #[kani::stub(crate::layer_4::tcp::repl, crate::verif_util::l4_tcp_stub)]
 #[kani::stub(crate::layer_4::udp::repl, crate::verif_util::l4_udp_stub)]
@@ -285,7 +285,7 @@ fn c02_ipv6_other_proto() {
 //# known: c04.udp6_zero_checksum
 //# cover: transport header too short
 #[kani::proof]
-#[kani::unwind(26)]
+#[kani::unwind(44)]
 #[kani::stub(crate::layer_4::icmpv6::repl, crate::verif_util::l4_icmpv6_stub)]
 #[kani::stub(crate::layer_4::tcp::repl, crate::verif_util::l4_tcp_stub)]
 #[kani::stub(crate::layer_4::udp::repl, crate::verif_util::l4_udp_stub)]
@@ -305,7 +305,7 @@ fn c01_ipv6_tcp_short() {
 //# known: c04.udp6_zero_checksum
 //# cover: transport header too short
 #[kani::proof]
-#[kani::unwind(26)]
+#[kani::unwind(44)]
 #[kani::stub(crate::layer_4::icmpv6::repl, crate::verif_util::l4_icmpv6_stub)]
 #[kani::stub(crate::layer_4::tcp::repl, crate::verif_util::l4_tcp_stub)]
 #[kani::stub(crate::layer_4::udp::repl, crate::verif_util::l4_udp_stub)]
@@ -325,7 +325,7 @@ fn c01_ipv6_udp_short() {
 //# known: c04.udp6_zero_checksum
 //# cover: transport header too short
 #[kani::proof]
-#[kani::unwind(26)]
+#[kani::unwind(44)]
 #[kani::stub(crate::layer_4::icmpv6::repl, crate::verif_util::l4_icmpv6_stub)]
 #[kani::stub(crate::layer_4::tcp::repl, crate::verif_util::l4_tcp_stub)]
 #[kani::stub(crate::layer_4::udp::repl, crate::verif_util::l4_udp_stub)]
@@ -372,7 +372,7 @@ fn ipv6_events(proto: Option<u8>, m: usize, n: usize) {
 //# cover: answered
 //# cover: dropped before layer 4
 #[kani::proof]
-#[kani::unwind(26)]
+#[kani::unwind(44)]
 #[kani::stub(crate::layer_4::icmpv6::repl, crate::verif_util::l4_icmpv6_stub)]
 #[kani::stub(crate::layer_4::tcp::repl, crate::verif_util::l4_tcp_stub)]
 #[kani::stub(crate::layer_4::udp::repl, crate::verif_util::l4_udp_stub)]
@@ -388,7 +388,7 @@ fn c20_ipv6_events_udp() {
 //# stubs: layer_4::{icmpv6,tcp,udp}::repl -> contract stubs
 //# cover: answered
 #[kani::proof]
-#[kani::unwind(26)]
+#[kani::unwind(44)]
 #[kani::stub(crate::layer_4::icmpv6::repl, crate::verif_util::l4_icmpv6_stub)]
 #[kani::stub(crate::layer_4::tcp::repl, crate::verif_util::l4_tcp_stub)]
 #[kani::stub(crate::layer_4::udp::repl, crate::verif_util::l4_udp_stub)]
